@@ -132,6 +132,23 @@ Proof.
     destruct (sys _ _) eqn:Es; [|discriminate]. intros H; inversion H; subst. eapply Hsys; eassumption.
 Qed.
 
+(* with the stand-in system allocator of the executable runs, a served request is never one the spec calls unservable
+   (so the model's own traces pass the strengthened oracle; for the implementation this is what the oracle checks) *)
+Lemma c15_model_serves_servable sT aT al n p : 1 <= sT ->
+  (c15_malloc_allocate sT aT n c15_sys_malloc c15_sys_aligned = C15Ok p \/ c15_aligned_allocate sT aT al n c15_sys_aligned = C15Ok p) ->
+  c15_spec_malloc_must_refuse sT n = false.
+Proof.
+  intros HsT H. unfold c15_spec_malloc_must_refuse, c15_spec_unservable.
+  change c15_unservable_bytes with c15_sys_limit.
+  assert (Hn : n <= c15_max_size sT /\ c15_wrap (n * sT) < c15_sys_limit).
+  { unfold c15_malloc_allocate, c15_malloc_allocate_gen, c15_aligned_allocate, c15_sys_malloc, c15_sys_aligned in H.
+    destruct (c15_max_size sT <? n) eqn:E; [destruct H as [H|H]; inversion H|]. apply N.ltb_ge in E. split; [exact E|].
+    destruct (c15_wrap (n * sT) <? c15_sys_limit) eqn:E2; [apply N.ltb_lt; exact E2|].
+    destruct H as [H|H]; [destruct (true && (c15_max_align <? aT))|]; inversion H. }
+  destruct Hn as [Hn Hw]. pose proof (c15_max_size_nowrap _ _ HsT Hn) as Hnw. rewrite (c15_wrap_small _ Hnw) in Hw.
+  apply orb_false_iff. split; [apply N.ltb_ge; exact Hnw|apply N.leb_gt; exact Hw].
+Qed.
+
 (* ------------------------------------------------------------------ DebugAllocator *)
 Definition c15_dbg_limit (page sT : N) : N := (c15_size_max - 2 * page) / sT.
 
